@@ -1089,6 +1089,75 @@ pub fn block_state_kernel() -> String {
     let v = s.storage(target, U256::from(9)).unwrap();
     out += &format!("[State::storage loaded account db_slot={}{}] ", v, tag(v == U256::from(99)));
 
+    // ---- the in-memory account of an earlier transaction is touched again while still empty (before state clearing): its storage stays
+    {
+        let mut s = mk(false, None);
+        s.commit(evm_acc(empty.clone(), Flags::Touched | Flags::Created)); // constructor wrote slot 2, left no code / nonce / balance
+        let before = s.storage(target, U256::from(2)).unwrap();
+        let mut m: HashMap<Address, Account> = HashMap::default();
+        m.insert(target, Account { info: empty.clone(), storage: HashMap::default(), status: Flags::Touched });
+        s.commit(m); // e.g. a zero-value call to it in a later transaction
+        let after = s.storage(target, U256::from(2)).unwrap();
+        let st = s.cache.accounts.get(&target).unwrap().status;
+        out += &format!("[CacheAccount::touch_create_pre_eip161 from InMemoryChange(empty, with storage) slot2 before={} after={} status={:?}{}] ", before, after, st, tag(before == U256::from(8) && after == before));
+    }
+
+    // ---- CacheDB::commit
+    {
+        let fresh = || {
+            let mut inner = CacheDB::new(EmptyDB::default());
+            inner.insert_account_info(target, x.clone());
+            inner.insert_account_storage(target, U256::from(9), U256::from(99)).unwrap();
+            CacheDB::new(inner)
+        };
+        let one = |info: AccountInfo, flags: Flags, slots: &[(u64, u64)]| {
+            let mut st: HashMap<U256, EvmStorageSlot> = HashMap::default();
+            for (k, v) in slots {
+                st.insert(U256::from(*k), EvmStorageSlot { original_value: U256::ZERO, present_value: U256::from(*v), is_cold: false });
+            }
+            let mut m: HashMap<Address, Account> = HashMap::default();
+            m.insert(target, Account { info, storage: st, status: flags });
+            m
+        };
+        let mut db = fresh();
+        db.commit(one(y.clone(), Flags::Loaded, &[(1, 5)]));
+        let b = db.basic(target).unwrap();
+        let v = db.storage(target, U256::from(1)).unwrap();
+        out += &format!("[CacheDB::commit untouched info_kept={} slot1={}{}] ", b == Some(x.clone()), v, tag(b == Some(x.clone()) && v.is_zero()));
+        let mut db = fresh();
+        db.commit(one(y.clone(), Flags::Touched, &[(1, 5)]));
+        let b = db.basic(target).unwrap();
+        let (v1, v9) = (db.storage(target, U256::from(1)).unwrap(), db.storage(target, U256::from(9)).unwrap());
+        out += &format!("[CacheDB::commit changed slot1={} db_slot9={}{}] ", v1, v9, tag(b == Some(y.clone()) && v1 == U256::from(5) && v9 == U256::from(99)));
+        let mut db = fresh();
+        db.commit(one(y.clone(), Flags::Touched | Flags::Created, &[(1, 5)]));
+        let (v1, v9) = (db.storage(target, U256::from(1)).unwrap(), db.storage(target, U256::from(9)).unwrap());
+        out += &format!("[CacheDB::commit created slot1={} stale_db_slot9={}{}] ", v1, v9, tag(v1 == U256::from(5) && v9.is_zero()));
+        let mut db = fresh();
+        db.commit(one(y.clone(), Flags::Touched | Flags::SelfDestructed, &[]));
+        let b = db.basic(target).unwrap();
+        let v9 = db.storage(target, U256::from(9)).unwrap();
+        out += &format!("[CacheDB::commit selfdestructed exists={} stale_db_slot9={}{}] ", b.is_some(), v9, tag(b.is_none() && v9.is_zero()));
+        db.commit(one(y.clone(), Flags::Touched, &[])); // ether sent to the destroyed address in a later transaction
+        let b = db.basic(target).unwrap();
+        let v9 = db.storage(target, U256::from(9)).unwrap();
+        out += &format!("[CacheDB::commit selfdestructed then touched exists={} stale_db_slot9={}{}] ", b.is_some(), v9, tag(b == Some(y.clone()) && v9.is_zero()));
+        let mut db = fresh();
+        db.commit(one(y.clone(), Flags::Touched | Flags::Created, &[(1, 5)]));
+        db.commit(one(y.clone(), Flags::Touched, &[(2, 6)]));
+        let (v1, v2, v9) = (db.storage(target, U256::from(1)).unwrap(), db.storage(target, U256::from(2)).unwrap(), db.storage(target, U256::from(9)).unwrap());
+        out += &format!("[CacheDB::commit created then changed slot1={} slot2={} stale_db_slot9={}{}] ", v1, v2, v9, tag(v1 == U256::from(5) && v2 == U256::from(6) && v9.is_zero()));
+        // an empty account that did not exist is touched before state clearing: it exists afterwards
+        let z = address!("00000000000000000000000000000000000000d2");
+        let mut db = fresh();
+        let _ = db.basic(z).unwrap();
+        let mut m: HashMap<Address, Account> = HashMap::default();
+        m.insert(z, Account { info: empty.clone(), storage: HashMap::default(), status: Flags::Touched | Flags::LoadedAsNotExisting });
+        db.commit(m);
+        let b = db.basic(z).unwrap();
+        out += &format!("[CacheDB::commit touched empty account that did not exist exists={}{}] ", b.is_some(), tag(b.is_some()));
+    }
+
     // ---- load_cache_account
     for (name, info, want) in [("absent", None, St::LoadedNotExisting), ("empty", Some(empty.clone()), St::LoadedEmptyEIP161), ("existing", Some(x.clone()), St::Loaded)] {
         let s = mk(true, info.clone());
